@@ -4,7 +4,7 @@
    proved are the per-step reactions; that they compose over traces is checked by the correspondence stream, and the
    wall-clock spacing of the timers (the real run loop) is outside the model. *)
 From Coq Require Import ZArith List Bool.
-From QF Require Import Base.Bytes Session.Types Session.Model Session.Spec Session.LocalProofs Session.FrameProofs Session.TraceProofs.
+From QF Require Import Base.Bytes Session.Types Session.Model Session.Spec Session.LocalProofs Session.FrameProofs Session.TraceProofs Session.KeepAliveProofs.
 Import ListNotations.
 Open Scope Z_scope.
 
@@ -73,3 +73,17 @@ Proof. exact pending_recovery_undisturbed. Qed.
 Theorem c20_timer_clauses_hold_on_every_trace : forall c es,
   free_of [2002; 2003] (c20_check c (combine es (map obs_of (run_trace es (init_sess c))))) = true.
 Proof. exact c20_timers_never_fail. Qed.
+
+(* TRACE LEVEL: the echo clause (2001: a TestRequest received in sequence by a logged-on, non-recovering session with
+   nothing queued or buffered is answered by exactly one Heartbeat carrying its TestReqID, and its number is consumed) and
+   the dead-peer clause (2004: a second peer timeout with the TestRequest still unanswered ends the connection, calls
+   OnLogout and closes the channel — whatever is still buffered) never fail on the model's trace, for every configuration
+   and every event list.  2004 uses the log-monotonicity closure (Session/MonoProofs.v): the callback log only grows
+   and the close mark stays within an event, including through drainMessageIn. *)
+Theorem c20_echo_holds_on_every_trace : forall c es,
+  free_of [2001] (c20_check c (combine es (map obs_of (run_trace es (init_sess c))))) = true.
+Proof. exact c20_echo_never_fails. Qed.
+
+Theorem c20_dead_peer_holds_on_every_trace : forall c es,
+  free_of [2004] (c20_check c (combine es (map obs_of (run_trace es (init_sess c))))) = true.
+Proof. exact c20_dead_peer_never_fails. Qed.
